@@ -263,8 +263,8 @@ def run_jsched(ctx, inp):
     cur = [None]
     orig_update, old_max = _L.Linker.update_hash, _L.Linker.MAX_SUB_NET_SIZE
 
-    def update_hash(self, coords, t, extra_data=None):
-        r = orig_update(self, coords, t, extra_data)
+    def update_hash(self, coords, t, *args, **kwargs):      # extra parameters are passed through
+        r = orig_update(self, coords, t, *args, **kwargs)
         uids[cur[0]].append([int(p.uuid) for p in self.hash.points])
         return r
     gens = [None] * nj
